@@ -301,7 +301,14 @@ class Pairing:
                                             params.index(re_.elem) if re_.elem in params else -1,
                                             params.index(re_.cont) if re_.cont in params else -1, pub))
                         fa = kill_attr(fa, norm(ev.recv), ev.field)
-                        new.append((fa, rl, tk | {tok}))
+                        extra = set()
+                        if ev.cls == "Definition" and ev.field == "_references":
+                            # order of insertion / removal matters when the old and the new definition are the same object
+                            if ev.op in ("remove", "discard") and any(t.startswith("W:Definition._references.add:") for t in tk):
+                                extra.add("O:add-before-remove")
+                            if ev.op == "add" and any(t.startswith("W:Definition._references.remove:") or t.startswith("W:Definition._references.discard:") for t in tk):
+                                extra.add("O:remove-before-add")
+                        new.append((fa, rl, tk | {tok} | extra))
                     outs = new
                 elif ev.kind == "call":
                     for t in ev.targets or []:
